@@ -736,8 +736,10 @@ func ruleListingIncludesOwn(c *Check, rule string) {
 // ruleLoadErrReturned: LoadOnce returns the transaction's error (C18-R2b).
 func ruleLoadErrReturned(c *Check, rule string) {
 	fn, paths := c.walkFn(rule, fnLoadOnce, WalkConfig{Memo: true,
-		KeepEvent: func(e *Event) bool { return e.Kind == "ret" || e.Kind == "call" && strings.Contains(e.Callee, "lmdb.Env") || e.Kind == "mapupdate" },
-		KeepAtom:  func(a Atom) bool { return strings.Contains(a.String(), "lmdb.Env") }})
+		KeepEvent: func(e *Event) bool {
+			return e.Kind == "ret" || e.Kind == "call" && strings.Contains(e.Callee, "lmdb.Env") || e.Kind == "mapupdate"
+		},
+		KeepAtom: func(a Atom) bool { return strings.Contains(a.String(), "lmdb.Env") }})
 	if paths == nil {
 		return
 	}
